@@ -685,6 +685,7 @@ def seeded_selftest(prop):
     if not os.path.isdir(sd):
         return out
     names = sorted(n for n in os.listdir(sd) if n.startswith(prop + "_"))
+    names = names[-3:]  # the three most recent seeded changes of this property (all of them: tools/matrix.py, seeded/MATRIX.md)
     for n in names:
         tmp = tempfile.mkdtemp(prefix="pyvc_selftest_")
         try:
